@@ -24,14 +24,15 @@ def plan(tier, seed):
     for n, u, maxp in specs:
         chunks += sweep.shape_chunks([(n, u)], per_chunk=12, maxp=maxp)
     return {
-        'chunks': chunks,
+        'chunks': chunks + [{'kind': 'clipipe'}],
         'rule': 'every hierarchy over n tokens (<= u unary insertions) x every assignment of words from %r with at '
                 'most p punctuation tokens x {punctuation_verylow, punctuation_root, punctuation_symetrify, '
                 'punctuation_symetrify with relc = the POS of each token}. non-trivial = distinct cases in which '
                 'at least one token changed its parent' % WORDS,
         'bound': ', '.join('n=%d:u<=%d:p<=%d' % s for s in specs),
         'exhaustive': True,
-        'assumptions': ['punctuation inventories as listed in trees.PUNCT / PAIRPUNCT (copied into the harness)',
+        'assumptions': ['driver differential (vt/clipipe.py): `treetools transform` with the pipelines that involve this operation, with and without --split, on a six-sentence corpus must write what the named functions give when applied by the harness in the given order',
+                        'punctuation inventories as listed in trees.PUNCT / PAIRPUNCT (copied into the harness)',
                         'well-formedness of the result is C04\'s business; C13 compares parents by object identity'],
     }
 
@@ -174,11 +175,19 @@ def inventory_cases():
 
 
 def check_case(case):
+    if 'clipipe' in case:
+        from .. import clipipe
+        return clipipe.replay(case)
     with quiet():
         return check_one(case['mt'], case['op'], case['relc'], case.get('order'), case.get('pre'))[0]
 
 
 def run_chunk(chunk):
+    if chunk.get('kind') == 'clipipe':
+        from .. import clipipe
+        res = Result()
+        clipipe.run_property(ID, res)
+        return res
     res = Result()
     if chunk.get('kind') == 'inventory':
         with quiet():
@@ -198,6 +207,9 @@ def run_chunk(chunk):
     with quiet():
         n = chunk['n']
         words = list(word_assignments(n, chunk['maxp']))
+        if chunk['maxp'] < n:
+            # beyond the bound on punctuation tokens: sentences that consist of paired punctuation only
+            words += [['"'] * n, ['('] * n, [['"', '('][i % 2] for i in range(n)], ['"'] * (n - 1) + ['w']]
         idx = 0
         for sh, k in sweep.iter_shapes(chunk):
             root = model.decorate(sh, lambda p, s: 'N' + ''.join(map(str, p)))
